@@ -451,19 +451,20 @@ def expected_flow(sc, ls):
                 atoms_by_id[it.id] = it
             if it.t == "label":
                 nxt = next((x for x in seq[i + 1:] if x.t in ("atom", "gap")), None)
+                # a temporary label is local to the patch that defines it (the library renames it per patch)
+                key = (it.patch, it.sym) if getattr(it, "temp", False) else it.sym
                 if getattr(it, "proxy", False):
-                    label_target[it.sym] = "proxyref"
+                    label_target[key] = "proxyref"
                 elif nxt is not None and nxt.t == "atom" and nxt.code:
-                    label_target[it.sym] = nxt.id
+                    label_target[key] = nxt.id
                 else:
-                    label_target[it.sym] = "zero:" + it.sym
+                    label_target[key] = "zero:" + it.sym
     for name in ls.ext:
         label_target[name] = "ext:" + name
 
-    def resolve(label):
+    def resolve(label, patch=None):
         if label.startswith(".L"):
-            hits = [k for k in label_target if k == label]
-            return label_target[hits[0]] if hits else None
+            return label_target.get((patch, label))
         return label_target.get(label)
 
     call_sites = {}
@@ -478,9 +479,9 @@ def expected_flow(sc, ls):
             if ft is not None:
                 out.add(("Fallthrough", ft, False, True))
             if it.kind in ("jmp", "jcc"):
-                out.add(("Branch", resolve(it.target), it.kind == "jcc", True))
+                out.add(("Branch", resolve(it.target, getattr(it, "patch", None)), it.kind == "jcc", True))
             elif it.kind == "call":
-                tgt = resolve(it.target)
+                tgt = resolve(it.target, getattr(it, "patch", None))
                 out.add(("Call", tgt, False, True))
                 if ft is not None and tgt in atoms_by_id and atoms_by_id[tgt].func:
                     call_sites.setdefault(atoms_by_id[tgt].func, set()).add(ft)
@@ -608,7 +609,11 @@ def _proxy_deleted_successor(sc, last):
 def _cfg_finding(sc, last, extra, missing):
     """Known-finding id for a CFG difference, or None (see known_findings.json)."""
     term = sc.bspec.get(last.blk, {}).get("atoms", ["o"])[-1].partition(":")[0]
-    if not extra and missing and all(x[0] == "Fallthrough" for x in missing) and term in ("jmp", "ret", "ijmp"):
+    # ... or a patch inserted earlier into the same block ends in such a terminator and this code is placed behind it
+    patch_term = any(md["op"] in ("insert", "replace") and md.get("blk") == last.blk and
+                     (md.get("patch") == "ret" or str(md.get("patch", "")).startswith("jmp:"))
+                     for md in sc.spec.get("mods", []))
+    if not extra and missing and all(x[0] == "Fallthrough" for x in missing) and (term in ("jmp", "ret", "ijmp") or patch_term):
         return "C03-no-fallthrough-after-removed-or-passed-terminator"
     if not missing and extra and all(x[0] == "Return" for x in extra) and last.kind != "ret":
         func = sc.bspec.get(last.blk, {}).get("func")
@@ -785,6 +790,8 @@ def make_check_C05(tier):
             chk.add("fault%d/%s" % (k, sid), h_rewrite_fault, params=dict(spec=spec, fault_at=k), timeout=900,
                     allow_no_pass=True)
     for sid, spec in rewrite_shapes.cfi_shapes(tier):
+        if crash_pattern(spec):
+            continue
         chk.add(sid, h_rewrite, params=dict(spec=spec, props=["C05"]), timeout=900)
     # closedness only (no position oracle): labels that slid onto a block which is then deleted with retarget_to_proxy
     import copy as _c
@@ -983,9 +990,14 @@ def snapshot(sc, temp_exact):
         ref = s.referent
         if isinstance(ref, gtirb.ByteBlock):
             sec, p = bpos(ref)
-            snap["symbols"][norm(s.name)] = ("block", sec, p + (ref.size if s.at_end else 0))
+            val = ("block", sec, p + (ref.size if s.at_end else 0))
         else:
-            snap["symbols"][norm(s.name)] = ("proxy" if isinstance(ref, gtirb.ProxyBlock) else "none",)
+            val = ("proxy" if isinstance(ref, gtirb.ProxyBlock) else "none",)
+        if norm(s.name) != s.name:
+            # temporary labels of different patches may share their name up to the suffix: compared as a multiset
+            snap.setdefault("temps", []).append((norm(s.name),) + val)
+        else:
+            snap["symbols"][s.name] = val
     for b in m.byte_blocks:
         sec, p = bpos(b)
         snap["blocks"].append((sec, p, b.size, type(b).__name__))
@@ -1066,6 +1078,7 @@ def compare_snapshots(eng, a, b, label):
         label, sorted(set(a["symbols"]) ^ set(b["symbols"]))))
     for n, v in a["symbols"].items():
         eng.check(_same_tuple(eng, v, b["symbols"][n]), "%s symbol %s designates different places" % (label, n))
+    _same_multiset(eng, a.get("temps", []), b.get("temps", []), label + " temporary labels")
     _same_multiset(eng, a["blocks"], b["blocks"], label + " block boundaries")
     _same_multiset(eng, a["edges"], b["edges"], label + " CFG edges")
     _same_multiset(eng, a["exprs"], b["exprs"], label + " symbolic expressions")
@@ -1113,7 +1126,9 @@ def h_batch_vs_single(eng, spec):
         ln = (b.boundary(md["blk"], md["to"]) - b.boundary(md["blk"], md["at"])) if "to" in md else 0
         natoms = len(b.atoms[md["blk"]])
         key = (md["blk"], md["at"])
-        prefer_end = (md["at"] == natoms and md["op"] == "insert") or (prev_key == key and md["op"] == "insert")
+        # an insertion at the end of a block stays in that block; a second insertion at the position of an earlier one
+        # goes where the batch puts it: into the block that follows the first patch, at offset 0
+        prefer_end = md["at"] == natoms and md["op"] == "insert"
         prev_key = key
         shift = shifts.get(sect.name, 0)
         blk, off = locate(b, sect, p0 + shift, ln, prefer_end)
